@@ -447,3 +447,43 @@ def sarif_one_based(self, v):
     reg = loc["physicalLocation"]["region"]
     return reg["startLine"] == v.line and reg["startColumn"] == v.column + 1 \
         and implies(v.line >= 1 and v.column >= 0, reg["startLine"] >= 1 and reg["startColumn"] >= 1)
+
+
+# ------------------------------------------------------------------------------------------ bounded check of the assumed codec
+@custom("c06-sanitize-bounded", props=["C06"])
+def c06_sanitize_bounded(ctx):
+    """The one assumed contract of this file, _sanitize_string == sanitize, is plumbing through the UTF-8 codec. Its
+    documented effect is checked natively on every string of length <= 3 over an alphabet of ASCII, quotes, newline,
+    non-ASCII, an astral character and surrogate-escaped bytes (U+DC80, U+DCE9, U+DCFF), plus a few long strings:
+    total (no exception), the result is encodable as UTF-8 (no surrogate survives), strings without surrogates are
+    unchanged, idempotent. NOT a proof (bounded domain): listed under `bounded` in the evidence."""
+    import itertools
+    import time
+    from pyvc.native import resolve_target
+    t0 = time.time()
+    try:
+        _, _, fn = resolve_target(CU + "_sanitize_string")
+    except Exception as e:  # noqa
+        return [{"name": "c06-sanitize-bounded", "kind": "bounded", "verdict": "unknown", "note": f"cannot import: {e!r}"[:300],
+                 "tool": "cpython", "budget": "-", "cases": 0}]
+    alphabet = ["a", "Z", "0", " ", "/", ".", "\"", "'", "\\", "\n", "\t", "é", "ß", "✓", "日", "\U0001F600",
+                "\udc80", "\udce9", "\udcff"]
+    cases = [""] + ["".join(t) for n in (1, 2, 3) for t in itertools.product(alphabet, repeat=n)]
+    cases += ["caf\udce9.py", "src/\udcff\udcfe/x.py", "a" * 5000 + "\udc80", "日本語/ファイル.py", "C:\\dir\\file.py"]
+    bad = None
+    for s in cases:
+        try:
+            r = fn(s)
+            r.encode("utf-8")
+            has_sur = any(0xD800 <= ord(ch) <= 0xDFFF for ch in s)
+            if (not has_sur and r != s) or fn(r) != r or r != _sanitize_native(s):
+                bad = (s, r)
+                break
+        except Exception as e:  # noqa
+            bad = (s, repr(e))
+            break
+    return [{"name": "c06-sanitize-bounded", "kind": "bounded", "verdict": "passed" if bad is None else "refuted",
+             "note": "" if bad is None else f"_sanitize_string({bad[0]!r}) -> {bad[1]!r}", "tool": "cpython (exhaustive over the alphabet)",
+             "budget": "strings of length <= 3 over 19 characters + 5 long strings", "cases": len(cases),
+             "ms": round((time.time() - t0) * 1000, 1), "witness_confirmed": bad is not None,
+             "model_inputs": {"text": bad[0]} if bad else None}]
